@@ -28,6 +28,7 @@ class Fn:
         self.bline = d.get('bline', self.line)
         self.eline = d['eline']
         self.ret = S[d['ret']]
+        self.retC = S[d['retC']] if 'retC' in d else self.ret
         self.pat = d['pat']
         self.inst = bool(g('inst'))
         self.cls = S[d['cls']] if 'cls' in d else None
@@ -42,6 +43,7 @@ class Fn:
         self.outer = g('outer')
         self.overrides = [S[x] for x in d.get('overrides', [])]
         self.targs = d.get('targs', [])
+        self.cls_targs = d.get('clsTargs', [])
         self.params = []
         for p in d['params']:
             self.params.append({'d': p['d'], 'name': p['name'], 't': S[p['t']], 'tC': S[p['tC']]})
@@ -484,7 +486,9 @@ class Fn:
                 return ('var', n['d'], n['name'])
             elif k == 'this':
                 return ('this',)
-            elif k == 'construct' and n.get('elidable') and n.get('args'):
+            elif k == 'construct' and (n.get('elidable') or n.get('copymove')) and n.get('args'):
+                nid = n['args'][0]
+            elif k == 'call' and n.get('q') in ('std::move', 'std::forward') and n.get('args'):
                 nid = n['args'][0]
             else:
                 return None
@@ -530,6 +534,7 @@ class Record:
         self.file = S[d['file']]
         self.line = d['line']
         self.inst = bool(d.get('inst'))
+        self.targs = d.get('targs', [])
         self.bases = [{'t': S[b['t']], 'q': S[b['q']] if 'q' in b else None} for b in d['bases']]
         self.allbases = d['allbases']
         self.fields = []
